@@ -1,2 +1,160 @@
--- driver stub for C06 (replaced when the model is built)
-def main : IO Unit := pure ()
+import PyramidModel.Prelude
+import PyramidModel.UrlGen
+import PyramidModel.Url
+/-! Driver for C06: one JSON case per line.  Texts travel as lists of code points, bytes as lists of numbers.
+in : {"ucd":{"word":[cp…],"digit":[…],"space":[…]}, "rxlib":[RX…], "pattern":T,
+      "kw":[[T, ["one",ATOM] | ["many",[ATOM…]]]…], "elems":[ATOM…], "script":T, "origin":T,
+      "query":T|null, "anchor":T|null [, "history":[[ATOM…]…]  earlier route_path calls' elements (the lru_cache)]}
+     ATOM = ["s",T] | ["b",[byte…]] | ["i","-12"] | ["o",T]          RX as in Drv/C01
+     or {"op":"quote","safe":[byte…],"text":T}   (quote_path_segment alone)
+out: {"compile":"ok"|"reerror"|"unsupported", "template":T, "gen":R, "path":R, "url":R, "pathinfo":[byte…]|null,
+      "decoded":T|null, "match":ENV|null, "expect":ENV|null, "intended":T|null, "admissible":b, "restnolf":b,
+      "closed":R (the token-wise substitution, must equal "gen")}
+     R = {"ok":T} | {"err":"keyerror"|"unicodedecode"|"format"|"outside"}
+     ENV = [[T,"s",T] | [T,"t",[T…]]…] -/
+open Pyr Pyr.Rx Pyr.Route Pyr.UrlGen Lean
+
+def jText (j : Json) : Except String Text := do
+  let cs : List Nat ← fromJson? j
+  pure (cs.map Char.ofNat)
+
+def tJson (t : Text) : Json := toJson (t.map Char.toNat)
+
+def jChar (j : Json) : Except String Char := do
+  let n : Nat ← fromJson? j
+  pure (Char.ofNat n)
+
+def jEsc (j : Json) : Except String Esc :=
+  match j with
+  | .str "d" => pure .d
+  | .str "w" => pure .w
+  | .str "s" => pure .s
+  | _ => throw "bad esc"
+
+def jItem (j : Json) : Except String CItem :=
+  match j with
+  | .arr #[.str "c", c] => do pure (.ch (← jChar c))
+  | .arr #[.str "r", a, b] => do pure (.range (← jChar a) (← jChar b))
+  | .arr #[.str "e", k] => do pure (.esc (← jEsc k))
+  | _ => throw "bad class item"
+
+def jBool (j : Json) : Except String Bool := fromJson? j
+
+partial def jRx (j : Json) : Except String Rx :=
+  match j with
+  | .arr #[.str "eps"] => pure .eps
+  | .arr #[.str "any"] => pure .any
+  | .arr #[.str "chr", c] => do pure (.chr (← jChar c))
+  | .arr #[.str "set", n, .arr items] => do pure (.set (← jBool n) (← items.toList.mapM jItem))
+  | .arr #[.str "esc", k, n] => do pure (.esc (← jEsc k) (← jBool n))
+  | .arr #[.str "seq", a, b] => do pure (.seq (← jRx a) (← jRx b))
+  | .arr #[.str "alt", a, b] => do pure (.alt (← jRx a) (← jRx b))
+  | .arr #[.str "rep", g, m, n, r] => do
+    let mx : Option Nat ← (match n with | .null => pure none | n => do let k : Nat ← fromJson? n; pure (some k))
+    let mn : Nat ← fromJson? m
+    pure (.rep (← jBool g) mn mx (← jRx r))
+  | _ => throw "bad rx"
+
+def jAtom (j : Json) : Except String Atom :=
+  match j with
+  | .arr #[.str "s", t] => do pure (.str (← jText t))
+  | .arr #[.str "o", t] => do pure (.other (← jText t))
+  | .arr #[.str "b", b] => do
+    let bs : List Nat ← fromJson? b
+    pure (.bytes (bs.map UInt8.ofNat))
+  | .arr #[.str "i", .str s] =>
+    match s.toInt? with
+    | some i => pure (.int i)
+    | none => throw "bad int"
+  | _ => throw "bad atom"
+
+def jAtoms (j : Json) : Except String (List Atom) :=
+  match j with
+  | .arr xs => xs.toList.mapM jAtom
+  | _ => throw "bad atoms"
+
+def jKVal (j : Json) : Except String KVal :=
+  match j with
+  | .arr #[.str "one", a] => do pure (.one (← jAtom a))
+  | .arr #[.str "many", xs] => do pure (.many (← jAtoms xs))
+  | _ => throw "bad value"
+
+def valJson : Val → List Json
+  | .str s => [Json.str "s", tJson s]
+  | .segs xs => [Json.str "t", Json.arr (xs.map tJson).toArray]
+
+def envJson (e : Env) : Json := Json.arr (e.map fun (n, v) => Json.arr (tJson n :: valJson v).toArray).toArray
+
+def optJson {α} (f : α → Json) : Option α → Json
+  | some x => f x
+  | none => Json.null
+
+def resJson : Except Err Text → Json
+  | .ok t => Json.mkObj [("ok", tJson t)]
+  | .error .keyError => Json.mkObj [("err", Json.str "keyerror")]
+  | .error .unicodeDecode => Json.mkObj [("err", Json.str "unicodedecode")]
+  | .error .format => Json.mkObj [("err", Json.str "format")]
+  | .error .outside => Json.mkObj [("err", Json.str "outside")]
+
+def toksOkD : List Tok → Bool
+  | [] => true
+  | .ph _ rx :: ts => Rx.ok rx && toksOkD ts
+  | _ :: ts => toksOkD ts
+
+def main : IO Unit := jsonDriver fun j => do
+  if let .ok (Json.str "quote") := j.getObjVal? "op" then
+    let safe : List Nat ← getAs j "safe"
+    let t ← jText (← getField j "text")
+    return Json.mkObj [("quoted", tJson (Pct.quote (safe.map UInt8.ofNat) t))]
+  let uj ← getField j "ucd"
+  let u : Ucd := ⟨← jText (← getField uj "word"), ← jText (← getField uj "digit"), ← jText (← getField uj "space")⟩
+  let rxs ← match (← getField j "rxlib") with
+    | .arr xs => xs.toList.mapM jRx
+    | _ => throw "bad rxlib"
+  let lib := mkLib rxs
+  let pattern ← jText (← getField j "pattern")
+  let kw : Kw ← match (← getField j "kw") with
+    | .arr xs => xs.toList.mapM fun x =>
+        match x with
+        | .arr #[k, v] => do pure ((← jText k), (← jKVal v))
+        | _ => throw "bad kw entry"
+    | _ => throw "bad kw"
+  let elems ← jAtoms (← getField j "elems")
+  let script ← jText (← getField j "script")
+  let origin ← jText (← getField j "origin")
+  let qs : Text ← match (← getField j "query") with
+    | .null => pure []
+    | q => do pure (Url.qsOf (.str (← jText q)))
+  let frag : Text ← match (← getField j "anchor") with
+    | .null => pure []
+    | a => do pure (Url.fragOf (← jText a))
+  match compileRoute u lib pattern with
+  | .error .reError => return Json.mkObj [("compile", Json.str "reerror")]
+  | .error .unsupported => return Json.mkObj [("compile", Json.str "unsupported")]
+  | .ok toks =>
+    if !toksOkD toks then return Json.mkObj [("compile", Json.str "unsupported")]
+    let history : List (List Atom) ← match j.getObjVal? "history" with
+      | .ok (.arr hs) => hs.toList.mapM jAtoms
+      | _ => pure []
+    let gen := generate toks kw
+    -- without a history the cache is empty and this is `routePath` / `routeUrl` (proved: `memo_empty_cache`)
+    let cache := cacheAfter toks kw [] history
+    let path := assembleMemo cache (quotedScript script) toks elems kw qs frag
+    let url := assembleMemo cache (origin ++ quotedScript script) toks elems kw qs frag
+    let pure0 := routePath script toks elems kw qs frag
+    let target : Option Text := match path with | .ok t => some t | .error _ => none
+    let pathinfo := target.bind fun t => wsgiPathInfo (Trav.utf8Enc script) (targetPath t)
+    let decoded := pathinfo.bind fun b => requestPath (some b)
+    let mtch := target.bind fun t => requestMatch u toks script t
+    return Json.mkObj [
+      ("compile", Json.str "ok"),
+      ("template", tJson (genTemplate toks)),
+      ("gen", resJson gen), ("closed", resJson (generateClosed toks kw)),
+      ("path", resJson path), ("url", resJson url), ("path_nocache", resJson pure0),
+      ("pathinfo", optJson (fun (b : Trav.Bytes) => toJson (b.map UInt8.toNat)) pathinfo),
+      ("decoded", optJson tJson decoded),
+      ("match", optJson envJson mtch),
+      ("expect", optJson envJson (expectEnv kw toks)),
+      ("intended", optJson tJson (intended kw toks)),
+      ("admissible", toJson (decide (Admissible toks kw))),
+      ("restnolf", toJson (restNoLF kw toks))]
